@@ -8,6 +8,7 @@ from ..model import AnalysisError, walk_no_nested, params_of
 from .. import report as R
 from ..report import RuleSpec
 from .. import codec as C
+from .. import sym
 from ..flow import ctor_kwargs
 from .common import unparse, call_name, local_defs, short
 from .c17 import _branch_paths
@@ -850,6 +851,62 @@ def rule_r7(ctx) -> List[R.Inst]:
     return insts
 
 
+def rule_r8(ctx) -> List[R.Inst]:
+    """slot cursor discipline: when the notes of one batch are taken as a SLICE of the time's slot list (`slots[a:b]`, walked by a
+    loop) and the cursor is then advanced by `cursor += n`, the slice must be exactly the n slots from the cursor: a = cursor and
+    b - a = n.  `slots[cursor:n]` is that only for the first batch of a time; from the second volume group on it is short or empty
+    while the cursor still advances — sounds are dropped although notes are free."""
+    M = ctx.M
+    rid = "C18.R8"
+    fn = _fn(ctx)
+    file = M.mods[fn.mod].rel
+    insts = []
+    for lp in (n for n in ast.walk(fn.node) if isinstance(n, ast.For)):
+        it = lp.iter
+        # enumerate(S[a:b]) / zip(S[a:b], ..) / S[a:b]
+        cands = [it] + (list(it.args) if isinstance(it, ast.Call) and call_name(it) in ("enumerate", "zip") else [])
+        sl = next((c for c in cands if isinstance(c, ast.Subscript) and isinstance(c.slice, ast.Slice) and isinstance(c.value, ast.Name) and
+                   c.slice.lower is not None and c.slice.upper is not None and c.slice.step is None), None)
+        if sl is None or not isinstance(sl.slice.lower, ast.Name):
+            continue
+        cur = sl.slice.lower.id
+        # the advance that follows the loop in the same block
+        parent_blocks = [b for b in _blocks_of(fn.node) if lp in b]
+        adv = None
+        for b in parent_blocks:
+            for st in b[b.index(lp) + 1:]:
+                if isinstance(st, ast.AugAssign) and isinstance(st.op, ast.Add) and isinstance(st.target, ast.Name) and st.target.id == cur:
+                    adv = st
+                    break
+        if adv is None:
+            continue
+        key = f"slot-slice:{cur}"
+        width = sym.canon(sl.slice.upper) - sym.canon(sl.slice.lower)
+        if width.same(sym.canon(adv.value)):
+            insts.append(R.ok(rid, key, file, lp.lineno, idiom=f"{unparse(sl)}: exactly the {unparse(adv.value)} slots from the cursor, which then advances by as many"))
+        elif width.symbols() <= sym.canon(adv.value).symbols() | {cur}:
+            insts.append(R.viol(rid, key, file, lp.lineno,
+                                f"the batch is '{unparse(sl)}' ({unparse(sl.slice.upper)} - {cur} slots) but the cursor advances by "
+                                f"'{unparse(adv.value)}': only for {cur} = 0 (the first volume group of a time) are these the same; later groups get "
+                                f"fewer notes than they are charged for and their sounds are dropped although notes are free",
+                                construct=f"{unparse(sl)} ; {unparse(adv)}"))
+        else:
+            insts.append(R.undec(rid, key, file, lp.lineno, f"slice '{unparse(sl)}' against advance '{unparse(adv.value)}' not decided"))
+    if not insts:
+        insts.append(R.ok(rid, "slot-slice:none", file, fn.node.lineno, idiom="no batch of slots is taken as a slice (one slot per step, cursor += 1)"))
+    return insts
+
+
+def _blocks_of(node):
+    out = []
+    for n in ast.walk(node):
+        for fld in ("body", "orelse", "finalbody"):
+            v = getattr(n, fld, None)
+            if isinstance(v, list) and v and isinstance(v[0], ast.stmt):
+                out.append(v)
+    return out
+
+
 def rule_dep(ctx):
     """obligations inherited from shared code reached through the call graph (sa/props/deps.py)"""
     from .deps import dep_insts
@@ -863,6 +920,7 @@ SPECS = [
     RuleSpec("C18.R4", rule_r4, 7, "A2", "sound columns of the result are cleared before slotting"),
     RuleSpec("C18.R6", rule_r6, 1, "A1", "source and target times are matched as stored (no one-sided transform)"),
     RuleSpec("C18.R7", rule_r7, 3, "A1", "sound kinds stay themselves through split -> count -> recombine (same bit constant, count = number of sounds)"),
+    RuleSpec("C18.R8", rule_r8, 1, "A7", "a batch of slots taken as a slice is exactly as long as the cursor's advance, from the cursor"),
     RuleSpec("C18.R5", rule_r5, 3, "A2", "bit tests on sound columns act on integer data for every history of the chart"),
     RuleSpec("C18.D", rule_dep, 1, "M0", "rules of the shared code (timing engine, list classes, stacker) that the operations of this property reach"),
 ]
